@@ -167,7 +167,16 @@ static inline void *psDynBufPrependStr(psDynBuf_t *db, const char *s)
 static inline void *psDynBufAppendOctets(psDynBuf_t *db, const void *data,
     size_t len)
 {
-    void *loc = psDynBufAppendSize(db, len);
+    void *loc;
+
+    if (data == NULL && len > 0)
+    {
+        /* The source is the result of an earlier failed allocation
+           (e.g. psDynBufDetach of a failed buffer): fail this buffer too. */
+        db->err++;
+        return NULL;
+    }
+    loc = psDynBufAppendSize(db, len);
 
     if (loc && len > 0)
     {
